@@ -169,7 +169,8 @@ func newChainRun(c *Ctx, sc chainScenario) *chainRun {
 	}
 	connNo := -1
 	ns.LinkFor = func(addr string) *Link {
-		l := &Link{BaseLatency: sc.latBase, Jitter: sc.latJitter, Tape: c.Scen, Frag: sc.frag}
+		l := &Link{BaseLatency: sc.latBase, Jitter: sc.latJitter, Tape: c.Scen, Frag: sc.frag,
+			HoleFor: time.Duration(1+c.Scen.Choose(600)) * time.Second}
 		if addr == trustedAddr {
 			connNo++
 			my := connNo
